@@ -20,7 +20,7 @@ Dims == <<"create", "a1", "a2", "fields", "calls", "scope", "deco", "getter">>
 DimVals(d) ==
   CASE d = "create" -> <<"ctor", "ctorlocal", "ctorE", "ctorV", "valGlobal", "valNewPtr", "valNewVal", "typeVal", "typePtr", "todo">>
     [] d = "a1"     -> <<"none", "int", "uint64", "float", "bool", "null", "str", "svc", "tagged", "value", "self",
-                         "pInt", "pStr", "pMulti", "pct", "fn", "fail", "pNull", "svcNS", "str7", "strtrue", "strnull">>
+                         "pInt", "pStr", "pMulti", "pct", "fn", "fail", "pNull", "svcNS", "str7", "strtrue", "strnull", "valueDeref", "floatInt">>
     [] d = "a2"     -> <<"none", "int", "str", "svc", "tagged", "pInt", "pMulti", "self", "svcNS", "str7", "bool", "strtrue", "null">>
     [] d = "fields" -> <<"none", "F1lit", "F1F2", "f3", "F2svcNS">>
     [] d = "calls"  -> <<"none", "set", "with", "setwith", "withset", "setE", "long", "setfail">>
@@ -34,7 +34,7 @@ ArgOf(x) ==
     [] x = "float" -> <<ALit("float", "1.5")>> [] x = "bool" -> <<ALit("bool", "true")>> [] x = "null" -> <<ALit("null", "")>>
     [] x = "str" -> <<AStr(" plain text ")>> [] x = "str7" -> <<AStr("7")>> [] x = "strtrue" -> <<AStr("true")>> [] x = "strnull" -> <<AStr("<nil>")>> [] x = "svc" -> <<ASvc("s2")>> [] x = "svcNS" -> <<ASvc("s3")>>
     [] x = "tagged" -> <<ATagged("t2")>>
-    [] x = "value" -> <<AValue("fx.Var")>> [] x = "self" -> <<ASelf>>
+    [] x = "value" -> <<AValue("fx.Var")>> [] x = "valueDeref" -> <<AValue("*fx.Var")>> [] x = "floatInt" -> <<ALit("float", "2")>> [] x = "self" -> <<ASelf>>
     [] x = "pInt" -> <<ARef("p1")>> [] x = "pStr" -> <<ARef("p2")>> [] x = "pNull" -> <<ARef("p4")>>
     [] x = "pMulti" -> <<APat(<<CText(" a"), CRef("p1"), CPct, CRef("p3"), CText("z ")>>)>>
     [] x = "pct" -> <<APat(<<CPct>>)>> [] x = "fn" -> <<APat(<<CFn("fn", "\"a\", 5")>>)>>
@@ -92,7 +92,7 @@ DimSet == {Dims[i] : i \in 1..Len(Dims)}
 ValSet(d) == {DimVals(d)[i] : i \in 1..Len(DimVals(d))}
 DefaultVec == [d \in DimSet |-> Default(d)]
 (* all vectors differing from the default in at most two dimensions *)
-PairVectors ==
+PairVectors(zz) ==
   UNION {UNION {{[DefaultVec EXCEPT ![d1] = x1, ![d2] = x2] : x1 \in ValSet(d1), x2 \in ValSet(d2)} : d2 \in DimSet} : d1 \in DimSet}
 LegalVec(v) == \A d \in DimSet : v[d] \in ValSet(d)
 (* combinations whose outcome the properties do not determine are left out *)
@@ -122,7 +122,12 @@ ScopeOps(S) == {OpGet(s) : s \in S} \cup {OpGetInContext(c, s) : c \in {1, 2}, s
 (* declaration order, and the configuration split over one to three files (tags and       *)
 (* decorators are appended in file order).                                                *)
 Absent == 999999
-TagPrios == IF Family = "tagsq" THEN {Absent, 0, 7} ELSE {Absent, -5, 0, 7, 2147483647}
+(* TLC's integers are 32 bit: 1000001 < 1000002 stand for two different priorities far above 2^31 and -1000001 for one   *)
+(* far below -2^31; the concretiser writes the real values (order preserved)                                           *)
+TagPrios == {Absent, -5, 0, 7, 2147483647, 1000001, 1000002, -1000001}
+TagPriosQ(s) == CASE s = "s1" -> {Absent, 0, 1000001} [] s = "s2" -> {Absent, 0, 1000002} [] OTHER -> {Absent, 7, 1000001}
+PrioAssignments(zz) == IF Family = "tagsq" THEN {f \in [{"s1", "s2", "s3"} -> TagPrios] : \A s \in {"s1", "s2", "s3"} : f[s] \in TagPriosQ(s)}
+                   ELSE [{"s1", "s2", "s3"} -> TagPrios]
 TagCfg(pr, t2, decs) ==
   [EmptyCfg EXCEPT !.meta = BaseMeta, !.params = ("p1" :> ALit("int", "5")),
      !.services =
@@ -157,9 +162,9 @@ SplitFiles(c, k) ==
                    [EmptyCfg EXCEPT !.decorators = SubSeq(c.decorators, 1, IF n >= 1 THEN 1 ELSE 0)],
                    [EmptyCfg EXCEPT !.decorators = SubSeq(c.decorators, 2, n), !.services = TagsTail(c)] >>
 
-TagFileSets ==
+TagFileSets(zz) ==
   {SplitFiles(TagCfg(pr, t2, DecSeqs[d]), k) :
-      pr \in [{"s1", "s2", "s3"} -> TagPrios], t2 \in SUBSET {"s2", "s3"}, d \in 1..Len(DecSeqs), k \in 1..3}
+      pr \in PrioAssignments(0), t2 \in SUBSET {"s2", "s3"}, d \in 1..Len(DecSeqs), k \in 1..3}
 TagScript == <<OpGetTaggedBy("t1"), OpGetTaggedBy("t2"), OpGet("c1"), OpGet("s1"), OpGetTaggedBy("t1")>>
 
 -----------------------------------------------------------------------------
@@ -169,7 +174,7 @@ TagScript == <<OpGetTaggedBy("t1"), OpGetTaggedBy("t2"), OpGet("c1"), OpGet("s1"
 TodoCfg(tp1, tp2, ts1, ts2) ==
   [EmptyCfg EXCEPT !.meta = BaseMeta,
      !.params = (   "p1" :> (IF tp1 THEN APat(<<CFn("todo", "")>>) ELSE ALit("int", "5"))
-                 @@ "p2" :> (IF tp2 THEN APat(<<CFn("todo", "\"in development\"")>>) ELSE APat(<<CRef("p1"), CText("-x")>>))
+                 @@ "p2" :> (IF tp2 THEN APat(<<CFn("todo", "\"in development,now\"")>>) ELSE APat(<<CRef("p1"), CText("-x")>>))
                  @@ "p3" :> APat(<<CFn("fn", "\"a\"")>>)
                  @@ "p4" :> ARef("p1")),                           \* an alias: exactly one reference
      !.services = (   "s1" :> (IF ts1 THEN [EmptySvc EXCEPT !.todo = "true"]
@@ -178,7 +183,7 @@ TodoCfg(tp1, tp2, ts1, ts2) ==
                                  [] ts2 = "bare"  -> [EmptySvc EXCEPT !.todo = "true"]
                                  [] ts2 = "typed" -> [EmptySvc EXCEPT !.todo = "true", !.type = "*fx.T"]     \* attributes of a todo service are inert
                                  [] ts2 = "ctor"  -> [CtorSvc("fx.NewB", <<ARef("p2")>>) EXCEPT !.todo = "true", !.scope = "non_shared"]))]
-TodoCfgs == {TodoCfg(a, b, c, d) : a \in BOOLEAN, b \in BOOLEAN, c \in BOOLEAN, d \in {"no", "bare", "typed", "ctor"}}
+TodoCfgs(zz) == {TodoCfg(a, b, c, d) : a \in BOOLEAN, b \in BOOLEAN, c \in BOOLEAN, d \in {"no", "bare", "typed", "ctor"}}
 TodoOps == {OpGetParam("p1"), OpGetParam("p2"), OpGetParam("p4"), OpGet("s1"), OpGet("s2"),
             OpOverrideParam("p1", "int", "9"), OpOverrideParam("p2", "string", "ov"),
             OpOverrideService("s2", "NewZ", <<ARef("p1")>>), OpOverrideService("s1", "NewD", <<ASvc("s2")>>)}
@@ -186,12 +191,12 @@ TodoOps == {OpGetParam("p1"), OpGetParam("p2"), OpGetParam("p4"), OpGet("s1"), O
 -----------------------------------------------------------------------------
 (* Family "api" (C13): getter x type form x must_getter x default_must_getter x meta names *)
 (* x what the second service does (own getter, the same getter, todo with a getter).       *)
-ApiGetters == IF Family = "apiq" THEN {Unset, "GetA", "MustGetA", "GetAInContext", "Get", "Container", "HotSwap"}
-              ELSE {Unset, "GetA", "MustGetA", "GetAInContext", "Container"} \cup RuntimeAPI
-ApiTypes   == IF Family = "apiq" THEN {Unset, "*fx.T", "fx.T"} ELSE {Unset, "*fx.T", "fx.T", "*\"probe.test/fx\".T", "*T", "\".\".T"}
+ApiGetters == IF Family = "apiq" THEN {Unset, "GetA", "MustGetA", "GetAInContext", "Get", "Container", "HotSwap", "_getEnv"}
+              ELSE {Unset, "GetA", "MustGetA", "GetAInContext", "Container", "_getEnv", "_concatenateChunks", "_x"} \cup RuntimeAPI
+ApiTypes   == IF Family = "apiq" THEN {Unset, "*fx.T", "fx.T", "fx.N"} ELSE {Unset, "*fx.T", "fx.T", "*\"probe.test/fx\".T", "*T", "\".\".T", "fx.N"}
 Tri == {Unset, "true", "false"}
-ApiCfg(g, t, m, dm, named, second) ==
-  LET byval == t \in {"fx.T", "\".\".T"} IN
+ApiCfg0(g, t, m, dm, named, second) ==
+  LET byval == t \in {"fx.T", "\".\".T", "fx.N"} IN
   [EmptyCfg EXCEPT
      !.meta = [BaseMeta EXCEPT !.defmust = dm, !.pkg = IF "pkg" \in named THEN "mypkg" ELSE Unset,
                                !.ctype = IF "ctype" \in named THEN "MyContainer" ELSE Unset,
@@ -202,14 +207,18 @@ ApiCfg(g, t, m, dm, named, second) ==
                                  [] second = "todo" -> [EmptySvc EXCEPT !.todo = "true", !.getter = "GetA", !.must = "true"]
                                  [] second = "failing" -> [CtorSvc("fx.NewE", <<AStr("fail")>>) EXCEPT !.getter = "GetB", !.type = "*fx.T", !.must = "true"]
                                  [] second = "none" -> CtorSvc("fx.NewB", <<>>)))]
-ApiCfgs == {ApiCfg(g, t, m, dm, {}, sec) : g \in ApiGetters, t \in ApiTypes, m \in Tri, dm \in Tri,
+ApiCfgS(g, t, m, dm, named, second, sc1) == [ApiCfg0(g, t, m, dm, named, second) EXCEPT !.services["s1"].scope = sc1]
+ApiCfg(g, t, m, dm, named, second) == ApiCfg0(g, t, m, dm, named, second)
+ApiCfgs(zz) == {ApiCfg(g, t, m, dm, {}, sec) : g \in ApiGetters, t \in ApiTypes, m \in Tri, dm \in Tri,
                                           sec \in {"own", "same", "todo", "none", "failing"}}
            \cup {ApiCfg(g, "*fx.T", "true", Unset, n, "own") : g \in {Unset, "GetA"}, n \in SUBSET {"pkg", "ctype", "cctor"}}
+           \cup {ApiCfgS("GetA", t, m, dm, {}, sec, sc) : t \in {"*fx.T", Unset}, m \in {"true", Unset}, dm \in {"true", Unset},
+                                                       sec \in {"own", "none"}, sc \in {"contextual", "non_shared"}}
 (* every generated method is exercised, then Get for identity *)
 ApiScript(c) ==
   LET gs == SortSeq(SetToSeq({c.services[s].getter : s \in WithGetter(c)}), NameLt)
       MustOf(g) == MustEff(c, GetterOwner(c, g)) IN
-  <<OpGet("s1")>> \o
+  <<OpGet("s1"), OpGetInContext(1, "s1"), OpGetInContext(2, "s1")>> \o
   FlattenSeq([i \in 1..Len(gs) |->
                 <<OpGetter(gs[i]), OpGetterIn(1, gs[i])>> \o
                 (IF MustOf(gs[i]) THEN <<OpMustGetter(gs[i]), OpMustGetterIn(2, gs[i])>> ELSE <<>>)])
@@ -221,7 +230,7 @@ ApiScript(c) ==
 (* constructor argument, field value and call argument.                                    *)
 LitKindsAll == <<ALit("int", "-3"), ALit("uint64", "18446744073709551615"), ALit("float", "0.25"), ALit("float", "+Inf"),
                  ALit("float", "-Inf"), ALit("float", "NaN"), ALit("bool", "false"), ALit("null", ""), AStr("hello \"q\" \\ w"),
-                 ALit("int", "9223372036854775807"), ALit("float", "1000000")>>
+                 ALit("int", "9223372036854775807"), ALit("float", "1000000"), ALit("float", "2"), ALit("float", "-3"), AStr("two\nlines\twith a tab"), AStr("*/ // `")>>
 LitCfg(i, multi) ==
   [EmptyCfg EXCEPT !.meta = BaseMeta,
      !.params = ("p1" :> LitKindsAll[i] @@ "p2" :> ARef("p1")
@@ -229,7 +238,7 @@ LitCfg(i, multi) ==
      !.services = ("s1" :> [CtorSvc("fx.NewA", <<LitKindsAll[i], ARef("p1"), ARef("p3")>>) EXCEPT
                               !.fields = <<Field("F1", LitKindsAll[i])>>,
                               !.calls = <<Call("SetX", <<LitKindsAll[i], ARef("p2")>>, FALSE)>>])]
-LitCfgs == {LitCfg(i, m) : i \in 1..Len(LitKindsAll), m \in BOOLEAN}
+LitCfgs(zz) == {LitCfg(i, m) : i \in 1..Len(LitKindsAll), m \in BOOLEAN}
 LitScript == <<OpGetParam("p1"), OpGetParam("p2"), OpGetParam("p3"), OpGet("s1")>>
 
 -----------------------------------------------------------------------------
@@ -238,10 +247,10 @@ LitScript == <<OpGetParam("p1"), OpGetParam("p2"), OpGetParam("p3"), OpGet("s1")
 (* parameters section; built-in functions used directly in service arguments.              *)
 CtorForms  == {"NewA", "fx.NewA", "\"probe.test/fx\".NewA", "probe.test/fx.NewA", "\".\".NewA"}
 ValueForms == {"Var", "fx.Var", "\".\".Var", "\"probe.test/fx\".Var", "probe.test/fx.Var", "\"probe.test/fx\".Holder.Field",
-               "&S{}", "&fx.S{}", "&\"probe.test/fx\".S{}", "&\".\".S{}", "S{}", "fx.S{}", "\".\".S{}"}
+               "&S{}", "&fx.S{}", "&\"probe.test/fx\".S{}", "&\".\".S{}", "S{}", "fx.S{}", "\".\".S{}", "*fx.Var", "*Var"}
 PtrTypes   == {Unset, "*T", "*fx.T", "*\"probe.test/fx\".T", "*\".\".T", "*probe.test/fx.T"}
 ValTypes   == {Unset, "T", "fx.T", "\"probe.test/fx\".T", "\".\".T"}
-IsValForm(x) == x \in {"S{}", "fx.S{}", "\".\".S{}"}
+IsValForm(x) == x \in {"S{}", "fx.S{}", "\".\".S{}", "*fx.Var", "*Var"}
 BuiltinArgs == <<APat(<<CFn("env", "\"VERIF_UNSET\", \"dflt\"")>>), APat(<<CFn("envInt", "\"VERIF_UNSET\", 77")>>),
                  APat(<<CText("n="), CFn("envInt", "\"VERIF_UNSET\", 77"), CPct>>)>>
 FormCfg(svc, withParams, builtin) ==
@@ -249,7 +258,7 @@ FormCfg(svc, withParams, builtin) ==
      !.params = IF withParams THEN ("p1" :> ALit("int", "5")) ELSE <<>>,
      !.services = ("s1" :> [svc EXCEPT !.getter = "GetS1"]
                    @@ "s2" :> CtorSvc("fx.NewB", IF builtin THEN BuiltinArgs ELSE <<>>))]
-FormCfgs ==
+FormCfgs(zz) ==
      {FormCfg([CtorSvc(c, <<>>) EXCEPT !.type = t], wp, b) : c \in CtorForms, t \in PtrTypes, wp \in BOOLEAN, b \in BOOLEAN}
 \cup {FormCfg([EmptySvc EXCEPT !.value = x, !.type = t], wp, TRUE) :
           x \in {y \in ValueForms : ~IsValForm(y)}, t \in PtrTypes, wp \in BOOLEAN}
@@ -308,33 +317,40 @@ ImportEnv(tbl, r1, r2) ==
 ImportAux(tbl, r1, r2) ==
   [used |-> {PathText(x) : x \in {Resolve(tbl, r1), Resolve(tbl, r2)} \ {Cur}},
    table |-> tbl, r1 |-> ImportText(r1), r2 |-> ImportText(r2)]
-ImportTriples ==
+ImportTriples(zz) ==
   {t \in TableSeqs(IF Family = "importsq" THEN 1 ELSE 2) \X RefImports \X RefImports :
       /\ TableWellFormed(t[1]) /\ Exists(t[1], t[2]) /\ Exists(t[1], t[3])
       /\ (TRUE => t[3] \in {t[2], INone, IDot, IPath(<<"a", "q">>, FALSE), IPath(<<"probe.test", "fx">>, TRUE), IPath(<<"probe.test", "x", "p">>, FALSE), IPath(<<"ab.test", "p">>, TRUE)})}
-ImportQuads == {<<t[1], t[2], t[3], TRUE>> : t \in ImportTriples}
-               \cup {<<t[1], t[2], t[3], FALSE>> : t \in {x \in ImportTriples : x[1] = <<>> /\ x[2].k = "path" /\ x[3].k = "path"}}
+ImportQuads(zz) == {<<t[1], t[2], t[3], TRUE>> : t \in ImportTriples(0)}
+               \cup {<<t[1], t[2], t[3], FALSE>> : t \in {x \in ImportTriples(0) : x[1] = <<>> /\ x[2].k = "path" /\ x[3].k = "path"}}
 ImportScript == <<OpGet("s1"), OpGet("s2"), OpGetParam("p1"), OpGet("s3")>> \o (IF IsSet(cfg0.services["s1"].getter) THEN <<OpGetter("GetS1")>> ELSE <<>>)
 
 -----------------------------------------------------------------------------
+(* Family "ext": larger random configurations and histories written by the harness         *)
+(* (vlib/randcfg.py) to ext_cases.ndjson; the specification keeps the accepted ones and     *)
+(* says what each history must return.                                                     *)
+ExtCases == IF Family = "ext" THEN ndJsonDeserialize("ext_cases.ndjson") ELSE <<>>
+
+-----------------------------------------------------------------------------
 Configs ==
-  CASE Family = "build"  -> {BuildCfg(v) : v \in {x \in PairVectors : LegalVec(x) /\ Determined(x)}}
+  CASE Family = "build"  -> {BuildCfg(v) : v \in {x \in PairVectors(0) : LegalVec(x) /\ Determined(x)}}
     [] Family = "scope2" -> ScopeCfgs({"s1", "s2"})
     [] Family = "scope3" -> ScopeCfgs({"s1", "s2", "s3"})
-    [] Family = "todo"   -> TodoCfgs
-    [] Family = "lits"   -> LitCfgs
-    [] Family = "forms"  -> FormCfgs
-    [] Family \in {"api", "apiq"} -> ApiCfgs
+    [] Family = "todo"   -> TodoCfgs(0)
+    [] Family = "lits"   -> LitCfgs(0)
+    [] Family = "forms"  -> FormCfgs(0)
+    [] Family \in {"api", "apiq"} -> ApiCfgs(0)
     [] OTHER -> {}
 
 NoFl == [ignoreP |-> FALSE, ignoreS |-> FALSE]
 FileSets ==
-  CASE Family \in {"tags", "tagsq"} -> {f \in TagFileSets : OutputAccepted(MergeAll(f), NoFl)}
+  CASE Family \in {"tags", "tagsq"} -> {f \in TagFileSets(0) : OutputAccepted(MergeAll(f), NoFl)}
     [] OTHER -> {<<c>> : c \in Configs}
 IsImports == Family \in {"imports", "importsq"}
 
-Scripted == Family \in {"build", "tags", "tagsq", "api", "apiq", "lits", "forms", "imports", "importsq"}
-Script == IF Family = "build" THEN BuildScript
+Scripted == Family \in {"ext", "build", "tags", "tagsq", "api", "apiq", "lits", "forms", "imports", "importsq"}
+Script == IF Family = "ext" THEN ExtCases[aux.idx].ops
+          ELSE IF Family = "build" THEN BuildScript
           ELSE IF Family \in {"api", "apiq"} THEN (IF APIAccepted(cfg0) THEN ApiScript(cfg0) ELSE <<>>)
           ELSE IF Family = "lits" THEN LitScript
           ELSE IF Family = "forms" THEN FormScript
@@ -349,8 +365,13 @@ Alphabet(c) ==
 Bound == IF Scripted THEN Len(Script) ELSE MaxHist
 
 Init ==
-  IF IsImports
-  THEN \E t \in ImportQuads :
+  IF Family = "ext"
+  THEN \E i \in 1..Len(ExtCases) :
+          /\ OutputAccepted(ExtCases[i].cfg, NoFl)
+          /\ files0 = <<ExtCases[i].cfg>> /\ cfg0 = ExtCases[i].cfg /\ st = NewState(ExtCases[i].cfg)
+          /\ hist = <<>> /\ aux = [idx |-> i]
+  ELSE IF IsImports
+  THEN \E t \in ImportQuads(0) :
           /\ files0 = <<ImportCfg(t[1], t[2], t[3], t[4])>> /\ cfg0 = ImportCfg(t[1], t[2], t[3], t[4])
           /\ st = NewStateEnv(ImportCfg(t[1], t[2], t[3], t[4]), ImportEnv(t[1], t[2], t[3]))
           /\ hist = <<>> /\ aux = ImportAux(t[1], t[2], t[3])
